@@ -145,6 +145,22 @@ func main() {
 			}
 		}
 	}
+	if os.Getenv("VERIF_PRUNE2") != "" {
+		// variant: PruneBelowVersion deletes in batches of 2 instead of 1000 (one constant)
+		src := filepath.Join(repo, "core/util/mpt_pnodedb.go")
+		b, err := os.ReadFile(src)
+		if err != nil {
+			fatal(err)
+		}
+		if !strings.Contains(string(b), "maxPruneNodes = 1000") {
+			fatal(fmt.Errorf("maxPruneNodes constant not found"))
+		}
+		dst := filepath.Join(out, "core_util_mpt_pnodedb.prune2.go")
+		if err := os.WriteFile(dst, []byte(strings.Replace(string(b), "maxPruneNodes = 1000", "maxPruneNodes = 2", 1)), 0o644); err != nil {
+			fatal(err)
+		}
+		repl[src] = dst
+	}
 	// added dump files: overlay_src/<pkg path with _>/<file>.go -> /repo/<pkg>/<file>.go
 	srcRoot := filepath.Join(root, "overlay_src")
 	_ = filepath.Walk(srcRoot, func(p string, info os.FileInfo, err error) error {
